@@ -261,7 +261,7 @@ func r7bSticky(c *RuleCtx) {
 				continue
 			}
 			// persistFooter's local wrapper never reaches persistFieldsSection
-			if fn.Name() == "persistFooter" {
+			if namedFn(fn, "persistFooter") {
 				continue
 			}
 			nsites++
